@@ -177,3 +177,28 @@ PROPS.update({
         "assumptions": BASE_ASSUME + ["hang oracle = RNG draw counter (every retry loop of the library draws a candidate) plus a wall-clock watchdog per shard", "ZUC/EEA/EIA entry points have no error channel and are not in the property's list"],
     },
 })
+
+# classes added while testing against seeded changes (rounds 3-5): appended to the generation rule of each property
+RULE_ADD = {
+    "C02": "crafted with the reference run backwards: T input in 8 boundary words x 32 rounds x both directions, round key equal to each boundary word x 32 rounds; histories contain out-of-domain calls whose after-effects are judged",
+    "C03": "digest-level hook: e solved so that the injected nonce meets r=0, r+k=n, s=0 (the signer must not emit a signature made with that nonce); signatures verified with the key object of the case's provenance and with a key decoded from the reference's compressed encoding; ID lengths 31..8190, messages to 2^20 bytes; keys with carry-chain limbs and Montgomery-boundary values; run-of-ones nonces",
+    "C04": "digest-level hook: t=r+s=0 with e solved to satisfy the remaining equation, arbitrary e incl. >= n; near misses made with the private key (r' = R xor mask, s' consistent with k)",
+    "C05": "valid points crafted onto the carry/reduction boundaries of the on-curve additions as recipient key (exact ciphertext) and as C1 of reference-made ciphertexts",
+    "C06": "crafted-boundary C1 samples with the whole fault space around them; ASN.1 form: 20 component-level tampers with consistent DER lengths on samples searched for leading/trailing zero bytes in C3/C2, every bit flip of the document judged through a strict reader",
+    "C07": "data beyond 2^8/2^12/2^16 blocks; histories on one mode object with interleaved encrypt/decrypt, failing calls and data/IV/key aliasing",
+    "C08": "state-level hook: one LFSR step, one FSM step and keystream from crafted register states (feedback sum on and next to every multiple of 2^31 and 2^31-1, 7^5 grid of tapped cells)",
+    "C09": "identities and messages of 8185..70001 bytes, identity pairs equal on their first 8191/8192 bytes",
+    "C10": "valid G1 points crafted onto the boundaries of x^3+5 as C1 of reference-made ciphertexts; messages/identities beyond 8160 bytes / 2^16 bits",
+    "C11": "stored-Z boundary words; product shapes (integer product in [m,2^256), at m+j, 2^256-1-j, ...) for fn_mul/fp_mul; scalars n-j and runs of ones; the point with x = 0",
+    "C12": "stored-Z boundary words for G1 and both components of G2's Z",
+    "C13": "product shapes for mod_n_mul and Fp::fp_mul; scalars j, N-j, N+j (j <= 200, thorough 1200) on both generators; runs of ones",
+    "C14": "runs of 17/33/48 injected out-of-range candidates",
+    "C15": "crafted-boundary valid R_A at the responder; coincident (doubling) and degenerate (infinity) static keys; honest run with an all-zero 1-byte key; same key / same ID for both parties; repeated steps",
+    "C16": "all 81 limb-wise comparison patterns for r and for H1+ks; carry chains in ks; t2 = N-j and j+1 for all hids; identities of 8185..70001 bytes",
+    "C17": "crafted-boundary valid R_A at the responder; identities beyond 8186 bytes; same identity for both parties",
+    "C18": "the ZUC state-level monitor of C08",
+    "C19": "crafted-boundary points and (0, +-sqrt(b)) as public keys in every encoding; PKCS#8 with a foreign public key",
+    "C20": "keys 2^k-1 for every k, 2^k, n-2^k under the RNG step limit",
+}
+for _k, _v in RULE_ADD.items():
+    PROPS[_k]["rule"] = PROPS[_k]["rule"] + " || added classes: " + _v
